@@ -31,15 +31,18 @@ def run(prog, rep):
             a = set(map(c06.twin_norm, ps[cell]))
             b = set(map(c06.twin_norm, pt_.get(cell, [])))
             if a == b:
-                rep.ok('R10.2', '%s(%s)|%d..%d' % (mkey[0], mkey[1], cell[0], cell[1]),
-                       sample={'overload': '%s(%s)' % mkey, 'cell': '%d..%d' % cell, 'emitted': str(sorted(a))} if cell[0] == 256 else None)
+                rep.ok('R10.2', '%s(%s)|%s' % (mkey[0], mkey[1], c06.cell_str(cell)),
+                       sample={'overload': '%s(%s)' % mkey, 'cell': c06.cell_str(cell), 'emitted': str(sorted(a))} if cell[0] == 256 else None)
             else:
                 diff.append((cell, sorted(a), sorted(b)))
         if diff:
             rep.finding('R10.2', '%s(%s)' % mkey, ft.loc(),
                         'string and stream MsgPack writers emit different bytes in %s(%s) for values %s'
-                        % (mkey[0], mkey[1], ', '.join('%d..%d' % c for c, _, _ in diff[:6])),
+                        % (mkey[0], mkey[1], ', '.join(c06.cell_str(c) for c, _, _ in diff[:6])),
                         {'string': str(diff[0][1]), 'stream': str(diff[0][2])}, func=ft.id, count=len(diff))
+    from rules import stream_window
+    stream_window.check(prog, rep, 'R10.5', floor=9)
+
     try:
         from rules import twins_extra
     except ImportError:
